@@ -493,12 +493,16 @@ class StmtMixin:
             if len(p) == 1:
                 v = st.env[root]
                 st.env[root] = fresh(v.ty, root, self.classes_fields())
+                for f in wf(st.env[root]):
+                    st.assume(f)
                 continue
 
             def upd(v, rest):
                 rec = dict(v.t)
                 if len(rest) == 1:
                     rec[rest[0]] = fresh(rec[rest[0]].ty, ".".join(p), self.classes_fields())
+                    for f in wf(rec[rest[0]]):
+                        st.assume(f)
                 else:
                     rec[rest[0]] = upd(rec[rest[0]], rest[1:])
                 return Val(v.ty, rec)
